@@ -2,22 +2,37 @@
 
 History checker: the model state is the tree index in {-1, 0..T-1} with the transition function from
 the docstrings; after every operation the real Tree's observable state is compared (a) with a fresh Tree
-moved directly to that index and (b) with the reference forest computed from the edge rows (check_tree).
-Workloads: exhaustive operation sequences (DFS over an alphabet, sharing prefixes through Tree.copy(),
-which is itself one of the operations), and long random walks without copies.
+moved directly to that index and (b) with the reference forest computed from the edge rows (check_tree; in the
+null state, the edge-free forest of lib.props.c06_ext.null_reference).
+Workloads: exhaustive operation sequences (DFS over a core alphabet, sharing prefixes through Tree.copy(),
+which is itself one of the operations; boundary values, out-of-range values and alternative argument forms are
+probed at the DFS nodes without recursing below them), and long random walks without DFS copies that start from
+every way of obtaining a Tree (constructor, TreeSequence.first/last/at/at_index/aslist, the trees() iterator and
+its reverse - which then stays one of the operations of the walk).
+
+Audit round (lib/props/AUDIT-C06.md): argument forms (keyword, numpy scalars, integer positions, negative
+indexes, the low-level object), exact boundaries (-0.0, the smallest subnormal, L/2 and its neighbours, -T,
+2^31 and 2^32 indexes, +-inf), inputs with hundreds of trees or hundreds of edges per breakpoint, parked copies
+that must not move when their original does (and the reverse), two Trees with different options on one tree
+sequence, the Tree.__eq__/__ne__ pair, and the observables left out of observable_state.
 """
+import bisect
 import math
+import warnings
 
 import numpy as np
 import tskit
 
 from lib import gen
 from lib.harness import case_rng
-from lib.model import NODE_IS_SAMPLE, NULL, RowModel
+from lib.model import NULL, RowModel
+from lib.props import c06_ext as X
 from lib.treecheck import check_tree, observable_state
 from lib.tsk import to_ts
 
 ID = "C06"
+
+NAV_ERRORS = (IndexError, ValueError, OverflowError, tskit.LibraryError)
 
 
 def special_models():
@@ -55,6 +70,8 @@ def special_models():
     ed.append((4.0, 10.0, 2, 4, b""))
     m.edges = sorted(ed, key=lambda e: (m.nodes[e[2]][1], e[2], e[3], e[0]))
     out.append(m)
+    # whole tables empty: no nodes at all; samples without any edge (one edge-free tree each)
+    out.extend(X.empty_models())
     return out
 
 
@@ -83,15 +100,38 @@ def cases(tier, seed):
 
 def pick_opts(rng, m, variant=None):
     samples = m.samples()
+    fixed = variant is not None
     if variant is None:
         variant = rng.randrange(4)
     sample_lists = variant % 2 == 1
-    thr = 1 if variant < 2 else rng.choice([2, 3])
+    if variant < 2:
+        thr = 1
+    elif fixed:
+        thr = rng.choice([2, 3])
+    else:
+        # exact boundaries: a threshold equal to (or one above) the sample count below some root; equal to the
+        # number of samples; one more than that (no node can ever be a root)
+        r = rng.random()
+        if r < 0.5:
+            thr = rng.choice([2, 3])
+        elif r < 0.8:
+            thr = X.boundary_threshold(rng, m)
+        elif r < 0.9:
+            thr = max(1, len(samples))
+        else:
+            thr = len(samples) + 1
     if not samples:
-        tracked = None
+        tracked = None if (fixed or rng.random() < 0.5) else []
     else:
         r = rng.random()
-        tracked = list(samples) if r < 0.3 else rng.sample(samples, rng.randint(1, len(samples))) if r < 0.9 else None
+        if r < 0.3:
+            tracked = list(samples)
+        elif r < 0.9:
+            tracked = rng.sample(samples, rng.randint(1, len(samples)))
+        elif fixed or r >= 0.95:
+            tracked = None
+        else:
+            tracked = []  # an empty list is not the same argument as None
     return {"sample_lists": sample_lists, "root_threshold": thr, "tracked": tracked}
 
 
@@ -100,6 +140,10 @@ def make_tree(ts, opts):
     if opts["tracked"] is not None:
         kw["tracked_samples"] = opts["tracked"]
     return tskit.Tree(ts, **kw)
+
+
+def tree_bucket(T):
+    return str(T) if T <= 6 else "7-127" if T < 128 else "128-255" if T < 256 else "256+"
 
 
 class Harness:
@@ -112,35 +156,61 @@ class Harness:
         self.bps = m.breakpoints()
         self.fresh = {}
         self.failed = False
-        self.alphabet = self._alphabet()
+        self.ncmp = 0
+        self.big = self.n > 64 or self.T > 64
+        self.core, self.extras = self._alphabet()
+        self.alphabet = self.core
 
     def _alphabet(self):
+        T, L = self.T, self.m.L
         ops = [("first",), ("last",), ("next",), ("prev",), ("clear",), ("copy",)]
-        for i in range(self.T):
+        for i in range(T):
             ops.append(("seek_index", i))
             l, r = self.bps[i], self.bps[i + 1]
             for x in (l, (l + r) / 2, math.nextafter(r, 0)):
                 ops.append(("seek", x))
         ops.append(("seek_index", -1))
-        ops.append(("seek_index", self.T))
-        ops.append(("seek_index", -self.T - 1))
-        ops.append(("seek", self.m.L))
-        ops.append(("seek", -1.0))
-        ops.append(("seek", float("nan")))
-        return ops
+        ops.append(("seek_index", T))
+        ops.append(("seek", L))
+        # Probed at every DFS node / drawn in walks, never recursed below in the DFS (they either fail and leave the
+        # state alone, or are another spelling of a core operation).
+        ex = [("seek_index", -T), ("seek_index", -T - 1), ("seek_index", 2 ** 31 - 1), ("seek_index", 2 ** 31),
+              ("seek_index", -2 ** 31), ("seek_index", 2 ** 32), ("seek_index", 2 ** 32 + T - 1), ("seek_index", 2 ** 64)]
+        for x in (-1.0, float("nan"), math.inf, -math.inf, -5e-324, math.nextafter(L, math.inf),
+                  -0.0, 5e-324, L / 2, math.nextafter(L / 2, math.inf), math.nextafter(L / 2, 0)):
+            ex.append(("seek", x))
+        idx = list(range(T)) if T <= 6 else sorted({0, T - 1, T // 2, 127 % T, 128 % T, 255 % T, 256 % T})
+        for k, i in enumerate(idx):
+            f = X.index_forms(i, T)
+            ex.append(("seek_index", i, f[k % len(f)]))
+            l, r = self.bps[i], self.bps[i + 1]
+            x = (l, (l + r) / 2, math.nextafter(r, 0))[k % 3]
+            f = X.seek_forms(x)
+            ex.append(("seek", x, f[(k // 3) % len(f)]))
+        ex += [("seek", L, "ll"), ("seek", float("nan"), "ll"), ("seek", -1.0, "ll"), ("seek", -5e-324, "ll"),
+               ("seek_index", T, "ll"), ("seek_index", -1, "ll"), ("seek_index", 2 ** 31, "ll"),
+               ("seek_index", T, "np64"), ("seek_index", -T - 1, "np32"), ("seek", L, "np64"), ("seek", L, "kw"),
+               ("seek_index", T, "kw"), ("seek", -0.0, "ll"), ("seek", L / 2, "ll")]
+        if L == int(L):
+            ex += [("seek", L, "int"), ("seek", 0.0, "int"), ("seek", L - 1, "npint")]
+        return ops, ex
 
-    def fresh_state(self, i):
+    def fresh_entry(self, i):
         if i not in self.fresh:
             t = make_tree(self.ts, self.opts)
             if i >= 0:
                 t.seek_index(i)
-            self.fresh[i] = observable_state(t, self.n)
+            self.fresh[i] = (t, observable_state(t, self.n), X.extra_state(t, self.n))
         return self.fresh[i]
+
+    def index_of(self, x):
+        return bisect.bisect_right(self.bps, x) - 1
 
     def expect(self, state, op):
         """(new index, expected return, expected exception class or None)"""
         T = self.T
         name = op[0]
+        form = op[2] if len(op) > 2 else "py"
         if name == "first":
             return 0, None, None
         if name == "last":
@@ -163,57 +233,189 @@ class Harness:
             return state, None, None
         if name == "seek_index":
             i = op[1]
+            if form == "neg":
+                i -= T
+            if form == "ll":
+                # the low-level object has no negative-index convention
+                return (i, None, None) if 0 <= i < T else (state, None, "ll-error")
             if -T <= i < T:
                 return i % T, None, None
             return state, None, IndexError
         if name == "seek":
             x = op[1]
+            if form == "np32":
+                x = float(np.float32(x))
+            elif form in ("int", "npint"):
+                x = float(int(x))
             if not (0 <= x < self.m.L):
-                return state, None, ValueError
-            for i in range(T):
-                if self.bps[i] <= x < self.bps[i + 1]:
-                    return i, None, None
+                return state, None, ("ll-error" if form == "ll" else ValueError)
+            return self.index_of(x), None, None
         raise AssertionError(op)
 
-    def apply(self, tree, state, op, history):
-        """Apply op to the real tree, compare with the model. Returns (tree, new_state)."""
+    def tags(self, state, move, op, new):
+        ctx = self.ctx
+        name = op[0]
+        ctx.feature("op:" + name)
+        ctx.feature(f"trans:{move}>{name}")
+        form = op[2] if len(op) > 2 else "py"
+        if form != "py":
+            ctx.feature(f"form:{name}:{form}")
+            ctx.count("form-ops")
+        if name == "seek":
+            x, L = op[1], self.m.L
+            b = None
+            if x != x:
+                b = "nan"
+            elif x == 0 and math.copysign(1, x) < 0:
+                b = "-0.0"
+            elif x in (5e-324, -5e-324):
+                b = "subnormal"
+            elif math.isinf(x):
+                b = "inf"
+            elif x == L / 2:
+                b = "L/2"
+            elif x in (math.nextafter(L / 2, math.inf), math.nextafter(L / 2, 0)):
+                b = "L/2-neighbour"
+            elif x in (L, math.nextafter(L, math.inf), math.nextafter(L, 0)):
+                b = "L-or-neighbour"
+            elif x in self.bps:
+                b = "breakpoint"
+            if b:
+                ctx.feature("seek-at:" + b)
+                ctx.count("boundary-ops")
+            if 0 <= x < L and form not in ("np32", "int", "npint"):
+                if state == -1:
+                    ctx.count("seeks-from-null")
+                    ctx.feature("seek-from-null:" + ("left-half" if x <= L / 2 else "right-half"))
+                elif new == state:
+                    ctx.feature("seek:same-tree")
+                else:
+                    ctx.feature("seek:linear-" + ("up" if new > state else "down")
+                                + (":far" if abs(new - state) > self.T / 2 else ""))
+        elif name == "seek_index":
+            i = op[1]
+            if abs(i) >= 2 ** 31 - 1 or i in (-self.T, -self.T - 1, self.T, -1):
+                ctx.feature("seek_index-at:" + ("-T" if i == -self.T else "-T-1" if i == -self.T - 1 else "T" if i == self.T
+                                                else "-1" if i == -1 else "2^31-and-beyond"))
+                ctx.count("boundary-ops")
+            if state == -1 and form in ("py", "kw", "np32", "np64", "neg") and -self.T <= i < self.T:
+                ctx.count("seeks-from-null")
+
+    def apply(self, tree, state, move, op, history):
+        """Apply op to the real tree, compare with the model. Returns (tree, new_state, new_move)."""
         ctx = self.ctx
         new, exp_ret, exp_exc = self.expect(state, op)
         ctx.count("steps")
-        ctx.feature("op:" + op[0])
+        self.tags(state, move, op, new)
         try:
             if op[0] == "copy":
                 tree = tree.copy()
                 ret = None
-            elif len(op) == 1:
-                ret = getattr(tree, op[0])()
+            elif op[0] in ("seek", "seek_index"):
+                ret = X.call_nav(tree, op)
             else:
-                ret = getattr(tree, op[0])(op[1])
+                ret = getattr(tree, op[0])()
             raised = None
-        except (IndexError, ValueError, tskit.LibraryError) as e:
+        except NAV_ERRORS as e:
             raised = e
             ret = None
         hist = history + [op]
         if exp_exc is not None:
-            if raised is None:
-                self.fail("nav/out-of-range-accepted/" + op[0], f"{op} from index {state} should raise {exp_exc.__name__}; history {hist}")
             ctx.count("error-transitions")
-        elif raised is not None:
+            if raised is None:
+                self.fail("nav/out-of-range-accepted/" + op[0], f"{op} from index {state} should raise "
+                          f"{exp_exc if isinstance(exp_exc, str) else exp_exc.__name__}; history {hist}")
+            elif not isinstance(exp_exc, str) and not isinstance(raised, exp_exc):
+                # the public methods document their exception: Tree.seek ":raises ValueError:", Tree.seek_index
+                # ":raises IndexError:" (the low-level object documents none: any failure is accepted there)
+                self.fail("nav/wrong-error-class/" + op[0], f"{op} from index {state} raised {raised!r}, documented: "
+                          f"{exp_exc.__name__}; history {hist}")
+            if exp_exc == "ll-error":
+                # The low-level object: the call must fail.  That it leaves the tree where it was is what the C
+                # code does but is not documented: the state is compared at whatever index the tree reports.
+                ctx.count("ll-error-transitions")
+                got = tree.index
+                if not (-1 <= got < self.T):
+                    self.fail("nav/ll-error/index", f"index {got} after failed {op}; history {hist}")
+                    return tree, state, move
+                new = got
+            # a failed call is followed by the comparison with the fresh tree only (the reference forest of this
+            # index was compared when the tree arrived here)
+            self.compare(tree, new, hist, light=True)
+            return tree, new, (move if new == state else "seek")
+        if raised is not None:
             self.fail("nav/unexpected-error/" + op[0], f"{op} from index {state} raised {raised!r}; history {hist}")
-            return tree, state
+            return tree, state, move
         if op[0] in ("next", "prev") and bool(ret) != exp_ret:
             self.fail("nav/return-value/" + op[0], f"{op[0]}() from index {state} returned {ret!r}, expected {exp_ret}; history {hist}")
+        if op[0] == "seek":
+            # "After a successful return of this method we have tree.interval.left <= position < tree.interval.right"
+            x = float(np.float32(op[1])) if (len(op) > 2 and op[2] == "np32") else float(op[1])
+            iv = tree.interval
+            ctx.count("seek-contains")
+            if not (iv.left <= x < iv.right):
+                self.fail("nav/seek-interval", f"after {op} from index {state} the interval is {tuple(iv)}; history {hist}")
         self.compare(tree, new, hist)
-        return tree, new
+        if op[0] in ("first", "next"):
+            move = "fwd"
+        elif op[0] in ("last", "prev"):
+            move = "rev"
+        elif op[0] in ("seek", "seek_index"):
+            move = "seek"
+        if new == -1:
+            move = "null"
+        return tree, new, move
 
-    def compare(self, tree, idx, hist):
+    def apply_iter(self, it, alive, direction, tree, state, move, history):
+        """next(iterator) on the TreeIterator that owns `tree`. Returns (new_state, new_move, alive)."""
+        ctx = self.ctx
+        ctx.count("steps")
+        ctx.count("iterator-steps")
+        ctx.feature("op:iter-" + direction)
+        ctx.feature(f"trans:{move}>iter-{direction}")
+        hist = history + [("iter", direction)]
+        try:
+            got = next(it)
+            stopped = False
+        except StopIteration:
+            got = None
+            stopped = True
+        if not alive:
+            # Iterator protocol: once StopIteration was raised, it is raised on every later call.  Whether the tree
+            # is moved by such a call is not documented: the state is compared at the index the tree reports.
+            ctx.count("iterator-exhausted-calls")
+            if not stopped:
+                self.fail("nav/iterator/resumed", f"next() on an exhausted trees() iterator returned a tree; history {hist}")
+            new = tree.index
+            if not (-1 <= new < self.T):
+                self.fail("nav/iterator/index", f"index {new} after next() on an exhausted iterator; history {hist}")
+                return state, move, alive
+            self.compare(tree, new, hist, light=(new == state))
+            return new, (move if new == state else "seek"), alive
+        new, exp_ret, _ = self.expect(state, ("next",) if direction == "fwd" else ("prev",))
+        if exp_ret:
+            if stopped:
+                self.fail("nav/iterator/early-stop", f"trees() iterator ({direction}) stopped at index {state} of "
+                          f"{self.T} trees; history {hist}")
+            elif got is not tree:
+                self.fail("nav/iterator/other-object", f"trees() iterator returned another object; history {hist}")
+        else:
+            alive = False
+            if not stopped:
+                self.fail("nav/iterator/no-stop", f"trees() iterator ({direction}) returned a tree after index {state}, "
+                          f"the {'last' if direction == 'fwd' else 'first'} of {self.T}; history {hist}")
+        self.compare(tree, new, hist)
+        return new, ("null" if new == -1 else "fwd" if direction == "fwd" else "rev"), alive
+
+    def compare(self, tree, idx, hist, light=False, force_deep=False):
         ctx = self.ctx
         ctx.count("state-comparisons")
+        self.ncmp += 1
         if tree.index != idx:
             self.fail("nav/wrong-tree", f"tree.index={tree.index} expected {idx} after {hist} (opts {self.opts})")
             return
         got = observable_state(tree, self.n)
-        exp = self.fresh_state(idx)
+        ftree, exp, expx = self.fresh_entry(idx)
         # total_branch_length is a floating-point sum taken in child order, which is allowed to depend on the path
         if got != exp and abs(got["tbl"] - exp["tbl"]) <= 1e-9 * max(1.0, abs(exp["tbl"])):
             got = dict(got, tbl=exp["tbl"])
@@ -222,82 +424,304 @@ class Harness:
             self.fail("nav/state-differs/" + "+".join(diff),
                       f"after {hist} (opts {self.opts}) state differs from a fresh tree at index {idx} in {diff}: "
                       f"got { {k: got[k] for k in diff} } expected { {k: exp[k] for k in diff} }")
+        gotx = X.extra_state(tree, self.n)
+        if gotx != expx:
+            diff = [k for k in expx if gotx[k] != expx[k]]
+            self.fail("nav/state-differs/" + "+".join(diff),
+                      f"after {hist} (opts {self.opts}) state differs from a fresh tree at index {idx} in {diff}: "
+                      f"got { {k: gotx[k] for k in diff} } expected { {k: expx[k] for k in diff} }")
+        # identical observable state: the two objects must compare equal (and not unequal)
+        ctx.count("eq-checks")
+        if not (tree == ftree) or (tree != ftree) or not (ftree == tree):
+            self.fail("nav/eq", f"after {hist} the tree at index {idx} does not compare equal to a fresh tree at that "
+                      f"index: == {tree == ftree}, != {tree != ftree}")
+        if light:
+            return
         if idx >= 0:
             ctx.count("reference-checks")
-            bad = check_tree(tree, self.m, self.opts, deep=False)
+            deep = force_deep or self.ncmp % 89 == 0
+            if deep:
+                ctx.count("deep-reference-checks")
+            bad = check_tree(tree, self.m, self.opts, deep=deep, rng=self.rng if deep else None, wide=deep or self.big)
             for key, msg in bad[:3]:
                 self.fail("nav/tree/" + key, f"after {hist} (opts {self.opts}): {msg}")
+        else:
+            ctx.count("null-reference-checks")
+            for key, msg in X.null_reference(tree, self.m, self.opts)[:3]:
+                self.fail("nav/null/" + key, f"after {hist} (opts {self.opts}): {msg}")
 
     def fail(self, key, msg):
         self.failed = True
-        self.ctx.violation(key, msg, {"model": self.m.to_json()})
+        self.ctx.violation(key, msg, {"model": self.m.to_json() if self.n <= 64 and self.T <= 64 else "(large)"})
 
     def dfs(self, depth):
         tree = make_tree(self.ts, self.opts)
         self.compare(tree, -1, [])
         visited = set()
 
-        def rec(tree, state, hist, d):
+        def rec(tree, state, move, hist, d):
             if d == 0 or self.failed:
                 return
-            for op in self.alphabet:
+            # boundary / out-of-range / argument-form probes: all of them from the null start, a deterministic draw deeper
+            probes = self.extras if not hist else self.rng.sample(self.extras, min(4, len(self.extras)))
+            for op in probes:
+                self.apply(tree.copy(), state, move, op, hist)
+                if self.failed:
+                    return
+            for op in self.core:
                 t2 = tree.copy()
-                t2, s2 = self.apply(t2, state, op, hist)
+                t2, s2, m2 = self.apply(t2, state, move, op, hist)
                 visited.add((state, op[0], s2))
                 if self.failed:
                     return
-                rec(t2, s2, hist + [op], d - 1)
+                rec(t2, s2, m2, hist + [op], d - 1)
+            # the copies moved; the tree they were taken from must not have
+            self.ctx.count("copy-independence")
+            self.compare(tree, state, hist + ["(original after its copies moved)"], light=True)
 
-        rec(tree, -1, [], depth)
+        rec(tree, -1, "null", [], depth)
         self.ctx.count("distinct-transitions", len(visited))
 
-    def walk(self, steps):
-        tree = make_tree(self.ts, self.opts)
-        state = -1
-        hist = []
-        for _ in range(steps):
-            r = self.rng.random()
-            if r < 0.45:
-                op = self.rng.choice([("next",), ("prev",), ("next",), ("prev",), ("first",), ("last",), ("clear",)])
+
+START_FORMS = ("ctor", "ts.first", "ts.last", "ts.at", "ts.at_index", "aslist", "iter", "reversed")
+
+
+class Walker:
+    """One random walk: a current tree, optionally the iterator that owns it, and a parked second Tree object
+    (a copy, the original of a copy, or another element of aslist()) that must stay where it was left."""
+
+    def __init__(self, h, form):
+        self.h = h
+        rng, ctx = h.rng, h.ctx
+        self.it = None
+        self.alive = False
+        self.direction = None
+        self.parked = None
+        ctx.feature("start:" + form)
+        ctx.count("start-forms")
+        opts = h.opts
+        aliases = form in ("iter", "reversed", "aslist") and rng.random() < 0.4
+        if aliases:
+            ctx.feature("start:deprecated-keyword-aliases")
+        kw = X.kwargs_for(rng, opts, ctx, aliases=aliases)
+        self.hist = [form]
+        with warnings.catch_warnings():
+            warnings.simplefilter("ignore")  # the ignored sample_counts / leaf_counts argument warns
+            tree, state, move = self.obtain(form, kw)
+        self.tree, self.state, self.move = tree, state, move
+        h.compare(tree, state, self.hist)
+
+    def obtain(self, form, kw):
+        h = self.h
+        rng, ts, T, ctx = h.rng, h.ts, h.T, h.ctx
+        if form == "ctor":
+            if "tracked_samples" in kw and rng.random() < 0.5:
+                tree = tskit.Tree(ts, kw.pop("tracked_samples"), **kw)  # positional
+                ctx.feature("start:ctor-positional-tracked")
             else:
-                op = self.rng.choice(self.alphabet)
-            tree, state = self.apply(tree, state, op, hist[-12:])
-            hist.append(op)
-            if self.failed:
+                tree = tskit.Tree(ts, **kw)
+            state, move = -1, "null"
+        elif form == "ts.first":
+            tree, state, move = ts.first(**kw), 0, "fwd"
+        elif form == "ts.last":
+            tree, state, move = ts.last(**kw), T - 1, "rev"
+        elif form == "ts.at":
+            self.must_raise(lambda: ts.at(rng.choice([h.m.L, -1.0, float("nan"), math.inf]), **kw), ValueError, "ts.at")
+            i = rng.randrange(T)
+            l, r = h.bps[i], h.bps[i + 1]
+            x = rng.choice([l, (l + r) / 2, math.nextafter(r, 0)])
+            self.hist = [f"ts.at({x!r})"]
+            tree, state, move = ts.at(x, **kw), i, "seek"
+        elif form == "ts.at_index":
+            self.must_raise(lambda: ts.at_index(rng.choice([T, -T - 1, 2 ** 31, 2 ** 32]), **kw), IndexError, "ts.at_index")
+            i = rng.randrange(-T, T)
+            self.hist = [f"ts.at_index({i})"]
+            tree, state, move = ts.at_index(i, **kw), i % T, "seek"
+        elif form == "aslist":
+            lst = ts.aslist(**kw)
+            if len(lst) != T:
+                h.fail("nav/aslist/length", f"aslist() has {len(lst)} trees, the tree sequence {T}")
+            i = rng.randrange(T)
+            self.hist = [f"ts.aslist()[{i}]"]
+            tree, state, move = lst[i], i, "fwd"
+            if T > 1:
+                j = rng.choice([k for k in range(T) if k != i])
+                self.parked = (lst[j], j, "fwd")
+        else:
+            it = ts.trees(**kw)
+            if len(it) != T:
+                h.fail("nav/iterator/len", f"len(ts.trees())={len(it)} with {T} trees")
+            if form == "reversed":
+                it = reversed(it)
+            self.it, self.alive = it, True
+            self.direction = "fwd" if form == "iter" else "rev"
+            tree = next(it)
+            state = 0 if form == "iter" else T - 1
+            move = self.direction
+        return tree, state, move
+
+    def must_raise(self, fn, exc, what):
+        """TreeSequence.at / at_index "see also Tree.seek / Tree.seek_index": the same documented exceptions."""
+        self.h.ctx.count("error-transitions")
+        try:
+            t = fn()
+        except NAV_ERRORS as e:
+            if not isinstance(e, exc):
+                self.h.fail("nav/wrong-error-class/" + what, f"{what} with an out-of-range argument raised {e!r}, "
+                            f"documented: {exc.__name__}")
+            return
+        self.h.fail("nav/out-of-range-accepted/" + what, f"{what} with an out-of-range argument returned a tree at index "
+                    f"{t.index}, should raise {exc.__name__}")
+
+    def check_parked(self, why):
+        if self.parked is not None:
+            t, s, _ = self.parked
+            self.h.ctx.count("copy-independence")
+            self.h.compare(t, s, self.hist[-12:] + [f"(parked tree, {why})"], light=True)
+
+    def draw(self):
+        h, rng = self.h, self.h.rng
+        r = rng.random()
+        if self.it is not None and r < (0.35 if self.alive else 0.04):
+            return [("iter",)]
+        r = rng.random()
+        if r < 0.38:
+            return [rng.choice([("next",), ("prev",), ("next",), ("prev",), ("first",), ("last",), ("clear",)])]
+        if r < 0.52:
+            return [rng.choice(h.extras)]
+        if r < 0.60:
+            # seek from the null state, into either half of the sequence
+            i = rng.randrange(h.T)
+            l, rr = h.bps[i], h.bps[i + 1]
+            op = rng.choice([("seek_index", i), ("seek", l), ("seek", (l + rr) / 2), ("seek", math.nextafter(rr, 0))])
+            return [("clear",), self.reform(op)]
+        return [self.reform(rng.choice(h.core))]
+
+    def reform(self, op):
+        rng = self.h.rng
+        if op[0] == "seek" and len(op) == 2 and rng.random() < 0.3:
+            return (op[0], op[1], rng.choice(X.seek_forms(op[1])))
+        if op[0] == "seek_index" and len(op) == 2 and rng.random() < 0.3:
+            return (op[0], op[1], rng.choice(X.index_forms(op[1], self.h.T)))
+        return op
+
+    def step(self):
+        h, rng = self.h, self.h.rng
+        for op in self.draw():
+            if h.failed:
                 return
+            hist = self.hist[-12:]
+            if op == ("iter",):
+                self.state, self.move, self.alive = h.apply_iter(self.it, self.alive, self.direction, self.tree,
+                                                                 self.state, self.move, hist)
+                self.hist.append(("iter", self.direction))
+                continue
+            t2, s2, m2 = h.apply(self.tree, self.state, self.move, op, hist)
+            self.hist.append(op)
+            if op[0] != "copy" or h.failed:
+                self.tree, self.state, self.move = t2, s2, m2
+                continue
+            # A copy was made (and compared).  Earlier parked tree: still where it was left?
+            self.check_parked("before re-parking")
+            cur = (self.tree, self.state, self.move)
+            cp = (t2, s2, m2)
+            if self.it is not None:
+                self.parked = cp  # the iterator owns the original: keep walking it
+                continue
+            pool = [cur, cp] + ([self.parked] if self.parked is not None else [])
+            k = rng.randrange(len(pool))
+            self.tree, self.state, self.move = pool.pop(k)
+            self.parked = rng.choice(pool)
+            h.ctx.feature("walk:continues-on-" + ("original" if k == 0 else "copy" if k == 1 else "parked"))
+
+    def finish(self):
+        if self.h.failed:
+            return
+        self.check_parked("end of walk")
+        if self.state >= 0 and not self.h.failed and self.h.rng.random() < 0.3:
+            # every view of the tree the walk ended on (pair queries, traversals, aliases, scalar accessors)
+            self.h.compare(self.tree, self.state, self.hist[-12:] + ["(end of walk, deep)"], force_deep=True)
+
+
+def gen_multi(rng, share=0.85, **kw):
+    """gen_full, redrawn (a bounded number of times) while it has a single tree, for `share` of the cases:
+    navigation over one tree has two states."""
+    m = gen.gen_full(rng, **kw)
+    if rng.random() < share:
+        for _ in range(8):
+            if len(m.breakpoints()) > 2:
+                break
+            m = gen.gen_full(rng, **kw)
+    return m
 
 
 def run_case(case, ctx):
     rng = case_rng(case)
-    if case["gen"] == "special-dfs":
-        m = special_models()[case["k"]]
+    kind = case["gen"]
+    k = case.get("k", 9)
+    steps = None
+    if kind == "special-dfs":
+        m = special_models()[k]
         opts = pick_opts(rng, m, case["opt"])
-        if case["k"] == 0:
+        if k == 0:
             opts["tracked"] = [0] if case["opt"] % 2 == 0 else [0, 2]
-    elif case["gen"] == "dfs":
-        m = gen.gen_full(rng, max_nodes=6, max_bp=2, max_sites=3)
+    elif kind == "dfs":
+        m = gen_multi(rng, max_nodes=6, max_bp=2, max_sites=3)
         opts = pick_opts(rng, m)
     else:
-        if case["k"] % 25 == 24:
+        if k % 25 == 24:
             from lib.props.c01 import build_msprime
             m = build_msprime(rng)  # many trees, arbitrary doubles, ARG nodes
+        elif k % 25 in (12, 18):
+            # hundreds of trees (index / edge-cursor arithmetic beyond 127 and 255)
+            m = X.long_model(rng, rng.choice([40, 130, 140, 260, 300]))
+            steps = rng.randint(25, 50)
+        elif k % 99 == 7:
+            m = X.wide_model(rng)  # hundreds of edges change at every breakpoint
+            steps = rng.randint(10, 20)
         else:
-            m = gen.gen_full(rng, max_nodes=10, max_bp=6, max_sites=5)
+            m = gen_multi(rng, max_nodes=10, max_bp=6, max_sites=5)
         opts = pick_opts(rng, m)
     ts = to_ts(m)
-    for t in gen.topo_tags(m):
-        ctx.feature(t)
-    ctx.feature(f"trees:{min(ts.num_trees, 6)}")
-    ctx.sig((case["gen"], m.signature(), str(opts)), nontrivial=True)
-    if case.get("k", 9) < 1:
+    if len(m.nodes) <= 64:
+        for t in gen.topo_tags(m):
+            ctx.feature(t)
+    else:
+        for t in m.tags:
+            ctx.feature(t)
+    ctx.feature(f"trees:{tree_bucket(ts.num_trees)}")
+    if ts.num_edges > 255:
+        ctx.feature("edges:256+")
+    ctx.feature(f"opts:thr={'1' if opts['root_threshold'] == 1 else '#samples' if opts['root_threshold'] == len(m.samples()) else '#samples+1' if opts['root_threshold'] == len(m.samples()) + 1 else 'other'}")
+    ctx.feature("opts:tracked=" + ("none" if opts["tracked"] is None else "empty" if not opts["tracked"] else "some"))
+    start = START_FORMS[k % len(START_FORMS)] if kind == "walk" else "dfs"
+    ctx.sig((kind, start, m.signature(), str(opts)), nontrivial=True)
+    if k < 1:
         ctx.sample({"case": case, "opts": opts, "model": m.to_json()})
     h = Harness(ctx, m, ts, opts, rng)
-    if case["gen"] in ("special-dfs", "dfs"):
+    if kind in ("special-dfs", "dfs"):
         depth = case["depth"]
-        if len(h.alphabet) > 30:
+        if len(h.core) > 27:  # (was: > 30 of an alphabet that held three more failing calls)
             depth = min(depth, 3)
         h.dfs(depth)
         ctx.count("dfs-runs")
-    else:
-        h.walk(rng.randint(20, 80))
-        ctx.count("walks")
+        return
+    walkers = [Walker(h, start)]
+    if k % 10 == 3 and not h.big:
+        # a second Tree with another option set on the same tree sequence, moved in between
+        opts2 = pick_opts(rng, m)
+        opts2["sample_lists"] = not opts["sample_lists"]
+        h2 = Harness(ctx, m, ts, opts2, rng)
+        walkers.append(Walker(h2, START_FORMS[(k // 10) % len(START_FORMS)]))
+        ctx.count("twin-walks")
+    if steps is None:
+        steps = rng.randint(20, 80)
+    for _ in range(steps):
+        w = walkers[0] if len(walkers) == 1 else rng.choice(walkers)
+        w.step()
+        if w.h.failed:
+            return
+    for w in walkers:
+        w.finish()
+    ctx.count("walks")
+
